@@ -195,11 +195,13 @@ Record options := mkOptions { o_pref : pref; o_zstd : N; o_br : N; o_gzip : N }.
 Definition level_of (o : options) (a : alg) : N :=
   match a with Zstd => o_zstd o | Br => o_br o | Gzip => o_gzip o end.
 
-(** the identity response (body, content-type header after [check_content_type]), the
-    compress preference after the floor, the three memo cells *)
+(** the identity response (body, content-type header after [check_content_type], the
+    content-encoding header the handler set itself, if any), the compress preference after
+    the floor, the three memo cells *)
 Record cresp := mkCresp {
   cr_body : bytes;
   cr_ctype : option bytes;
+  cr_hce : option bytes;
   cr_compress : bool;
   cr_gzip : option bytes;
   cr_br : option bytes;
@@ -209,24 +211,37 @@ Definition cell_get (a : alg) (c : cresp) : option bytes :=
   match a with Gzip => cr_gzip c | Br => cr_br c | Zstd => cr_zstd c end.
 Definition cell_set (a : alg) (v : option bytes) (c : cresp) : cresp :=
   match a with
-  | Gzip => mkCresp (cr_body c) (cr_ctype c) (cr_compress c) v (cr_br c) (cr_zstd c)
-  | Br => mkCresp (cr_body c) (cr_ctype c) (cr_compress c) (cr_gzip c) v (cr_zstd c)
-  | Zstd => mkCresp (cr_body c) (cr_ctype c) (cr_compress c) (cr_gzip c) (cr_br c) v
+  | Gzip => mkCresp (cr_body c) (cr_ctype c) (cr_hce c) (cr_compress c) v (cr_br c) (cr_zstd c)
+  | Br => mkCresp (cr_body c) (cr_ctype c) (cr_hce c) (cr_compress c) (cr_gzip c) v (cr_zstd c)
+  | Zstd => mkCresp (cr_body c) (cr_ctype c) (cr_hce c) (cr_compress c) (cr_gzip c) (cr_br c) v
   end.
 
 Definition floor : nat := 50.
 (** [CompressedResponse::new]: "It's not worth it. Also covers special case of body.is_empty." *)
-Definition cresp_new (body : bytes) (ctype : option bytes) (compress : bool) : cresp :=
-  mkCresp body ctype (if Nat.ltb (length body) floor then false else compress) None None None.
+Definition cresp_new (body : bytes) (ctype hce : option bytes) (compress : bool) : cresp :=
+  mkCresp body ctype hce (if Nat.ltb (length body) floor then false else compress) None None None.
 
 (** what [clone_preferred] hands to its caller *)
 Inductive reply :=
 | Sent (label : option bytes) (body : bytes) (chosen : coding)   (* Ok(response) *)
 | NotAcceptable.                                                 (* Err(message) -> 406 *)
 
-(** [clone_identity_set_compression]: content-encoding is inserted only for a non-empty body *)
-Definition set_compression (new_data : bytes) (compression : coding) : reply :=
-  Sent (match new_data with [] => None | _ => Some (coding_name compression) end) new_data compression.
+(** [clone_identity_set_compression]: the headers of the identity response are cloned; content-encoding
+    is inserted (replacing the handler's own, if any) only for a non-empty body *)
+Definition set_compression (hce : option bytes) (new_data : bytes) (compression : coding) : reply :=
+  Sent (match new_data with [] => hce | _ => Some (coding_name compression) end) new_data compression.
+
+(** The repairs made to [clone_preferred] (each [false] = kvarn 0.6.3 before that repair, kept for the
+    [_refuted] witnesses only):
+    [fx_floor]: identity;q=0 is honoured also below the 50-byte floor / for opted-out handlers,
+    [fx_star] : "*;q=0" without an identity member refuses identity (RFC 7231 5.3.4),
+    [fx_case] : the name "identity" is compared case-insensitively. *)
+Record fixes := mkFixes { fx_floor : bool; fx_star : bool; fx_case : bool }.
+Definition all_fixed : fixes := mkFixes true true true.
+Definition s_star : bytes := B "*".
+
+(** request methods as far as [handle_cache] distinguishes them here *)
+Inductive meth := MGet | MHead | MOther.
 
 Section Negotiate.
   Variable parse_q : bytes -> option qclass.
@@ -242,8 +257,14 @@ Section Negotiate.
     | None => []
     end.
 
-  Definition disable_identity (values : list (bytes * qclass)) : bool :=
-    existsb (fun v => beq (fst v) s_identity && q_is_zero (snd v)) values.
+  Definition names_identity (fx : fixes) (v : bytes) : bool :=
+    beq (if fx_case fx then lower v else v) s_identity.
+  Definition disable_identity_gen (fx : fixes) (values : list (bytes * qclass)) : bool :=
+    existsb (fun v => names_identity fx (fst v) && q_is_zero (snd v)) values
+    || (fx_star fx
+        && existsb (fun v => beq (fst v) s_star && q_is_zero (snd v)) values
+        && negb (existsb (fun v => names_identity fx (fst v)) values)).
+  Definition disable_identity : list (bytes * qclass) -> bool := disable_identity_gen all_fixed.
   Definition only_identity (values : list (bytes * qclass)) : bool :=
     match values with
     | [v] => beq (fst v) s_identity && q_is_one (snd v)
@@ -282,26 +303,30 @@ Section Negotiate.
     | None => Identity
     end.
 
-  (** [get_gzip] / [get_br] / [get_zstd] run by one task at a time:
-      check the cell; compute; check again and write; read the cell *)
+  (** [get_gzip] / [get_br] / [get_zstd] ([OnceCell::get_or_init]) run by one task at a time:
+      the cell's value if it has one; else compute, store, read the cell *)
   Definition get_alg (a : alg) (level : N) (c : cresp) : bytes * cresp :=
     match cell_get a c with
     | Some b => (b, c)
     | None => let b := enc a level (cr_body c) in (b, cell_set a (Some b) c)
     end.
 
-  Definition clone_preferred (c : cresp) (ae : option bytes) (o : options) : reply * cresp :=
-    if negb (cr_compress c) then (set_compression (cr_body c) Identity, c) else
+  Definition clone_preferred_gen (fx : fixes) (c : cresp) (ae : option bytes) (o : options) : reply * cresp :=
     let values := header_values ae in
-    if only_identity values then (set_compression (cr_body c) Identity, c) else
+    if negb (cr_compress c) then
+      (if fx_floor fx && disable_identity_gen fx values then NotAcceptable
+       else set_compression (cr_hce c) (cr_body c) Identity, c)
+    else
+    if only_identity values then (set_compression (cr_hce c) (cr_body c) Identity, c) else
     match choose c values o with
     | Identity =>
-        if disable_identity values then (NotAcceptable, c)
-        else (set_compression (cr_body c) Identity, c)
+        if disable_identity_gen fx values then (NotAcceptable, c)
+        else (set_compression (cr_hce c) (cr_body c) Identity, c)
     | Alg a =>
         let '(b, c') := get_alg a (level_of o a) c in
-        (set_compression b (Alg a), c')
+        (set_compression (cr_hce c) b (Alg a), c')
     end.
+  Definition clone_preferred : cresp -> option bytes -> options -> reply * cresp := clone_preferred_gen all_fixed.
 
   (** specification vocabulary *)
   Definition compressible (c : cresp) : bool :=
@@ -310,44 +335,103 @@ Section Negotiate.
   Definition cells_ok (c : cresp) : Prop :=
     forall a b, cell_get a c = Some b -> exists level, b = enc a level (cr_body c).
 
-  (** ** One cached page inside [handle_cache] (GET, status 200, no vary rules) *)
+  (** ** One page inside [handle_cache] (no vary rules): what its handler returns, and the requests *)
   Record page := mkPage {
-    pg_body : bytes; pg_ctype : option bytes; pg_compress : bool;   (* what the handler returns *)
-    pg_cache : bool;                                                (* get_cache(..).is_some() *)
+    pg_body : bytes; pg_ctype : option bytes;
+    pg_hce : option bytes;                        (* a content-encoding header set by the handler itself *)
+    pg_status : N;
+    pg_compress : bool;                           (* CompressPreference::Full *)
+    pg_cache : bool;                              (* ServerCachePreference::Full (else None) *)
     pg_oneshot : options; pg_cached : options
   }.
+  (** [host::default_status_code_cache_filter] *)
+  Definition cacheable_status (s : N) : bool :=
+    negb (((400 <=? s) && (s <=? 403)) || ((405 <=? s) && (s <=? 409)) || ((411 <=? s) && (s <=? 499))
+          || ((100 <=? s) && (s <=? 199)) || (s =? 304)).
+  (** the cache is consulted and filled for GET and HEAD only *)
+  Definition cache_method (m : meth) : bool := match m with MGet | MHead => true | MOther => false end.
+  (** [get_cache(..).is_some()] *)
+  Definition admitted (pg : page) (m : meth) : bool := pg_cache pg && cacheable_status (pg_status pg) && cache_method m.
+
   (** server state = the cached entry of the page, if any *)
-  Definition handle (pg : page) (entry : option cresp) (ae : option bytes) : reply * option cresp :=
-    match entry with
+  Definition visible (entry : option cresp) (m : meth) : option cresp := if cache_method m then entry else None.
+  Definition handle (pg : page) (entry : option cresp) (rq : meth * option bytes) : reply * option cresp :=
+    let '(m, ae) := rq in
+    match visible entry m with
     | Some c =>
         let '(r, c') := clone_preferred c ae (pg_cached pg) in (r, Some c')
     | None =>
-        let c := cresp_new (pg_body pg) (pg_ctype pg) (pg_compress pg) in
-        let '(r, c') := clone_preferred c ae (if pg_cache pg then pg_cached pg else pg_oneshot pg) in
-        (r, if pg_cache pg then Some c' else None)
+        let c := cresp_new (pg_body pg) (pg_ctype pg) (pg_hce pg) (pg_compress pg) in
+        let '(r, c') := clone_preferred c ae (if admitted pg m then pg_cached pg else pg_oneshot pg) in
+        (r, if admitted pg m then Some c' else entry)
     end.
-  Fixpoint handle_all (pg : page) (entry : option cresp) (reqs : list (option bytes))
-    : list reply * option cresp :=
+  (** the reply was taken from a memo cell that an earlier request had filled *)
+  Definition was_memoised (entry : option cresp) (rq : meth * option bytes) (r : reply) : bool :=
+    match r, visible entry (fst rq) with
+    | Sent _ _ (Alg a), Some c => match cell_get a c with Some _ => true | None => false end
+    | _, _ => false
+    end.
+  Fixpoint handle_all (pg : page) (entry : option cresp) (reqs : list (meth * option bytes))
+    : list (reply * bool) * option cresp :=
     match reqs with
     | [] => ([], entry)
-    | ae :: rest =>
-        let '(r, e) := handle pg entry ae in
+    | rq :: rest =>
+        let '(r, e) := handle pg entry rq in
         let '(rs, e') := handle_all pg e rest in
-        (r :: rs, e')
+        ((r, was_memoised entry rq r) :: rs, e')
     end.
-  Definition serve (pg : page) (entry : option cresp) (reqs : list (option bytes)) : list reply :=
-    fst (handle_all pg entry reqs).
-  (** groups of requests (a group = requests that arrive together) *)
-  Fixpoint serve_groups (pg : page) (entry : option cresp) (groups : list (list (option bytes)))
-    : list (list reply) :=
+  Definition serve (pg : page) (entry : option cresp) (reqs : list (meth * option bytes)) : list reply :=
+    map fst (fst (handle_all pg entry reqs)).
+  (** n requests with the same method and header arriving together.  When the page has an entry they all
+      work on that entry's memo cells ([memo_invariant]: every interleaving gives what n sequential requests
+      give).  When it has none, every one of them misses the cache before any of them has inserted (the
+      compressing ones all wait for their encoder first): each is computed afresh, and the entries they
+      insert are interchangeable. *)
+  Definition handle_group (pg : page) (entry : option cresp) (rq : meth * option bytes) (n : nat)
+    : list (reply * bool) * option cresp :=
+    match entry, n with
+    | None, S (S _) => (repeat (fst (handle pg None rq), false) n, snd (handle pg None rq))
+    | _, _ => handle_all pg entry (repeat rq n)
+    end.
+  Fixpoint serve_groups (pg : page) (entry : option cresp) (groups : list (meth * option bytes * nat))
+    : list (list (reply * bool)) :=
     match groups with
     | [] => []
-    | g :: rest => let '(rs, e) := handle_all pg entry g in rs :: serve_groups pg e rest
+    | (rq, n) :: rest => let '(rs, e) := handle_group pg entry rq n in rs :: serve_groups pg e rest
+    end.
+
+  (** ** The property as an executable specification: what one request may be answered with.
+      It is stated on the page and the list of (coding, quality) pairs, not on [clone_preferred]. *)
+  Record verdict := mkVerdict {
+    v_406 : bool;            (* the answer has to be 406 *)
+    v_identity : bool;       (* the identity body may be sent *)
+    v_algs : list alg        (* codings whose encoding of the identity body may be sent *)
+  }.
+  Definition all_algs : list alg := [Zstd; Br; Gzip].
+  Definition page_ctype_ok (pg : page) : bool :=
+    match pg_ctype pg with
+    | Some h => if to_str_ok h then match parse_mime h with Some m => do_compress m | None => false end else false
+    | None => false
+    end.
+  (** the server may compress at all: past the floor, handler did not opt out, not an already-compressed media type *)
+  Definition may_compress (pg : page) : bool :=
+    negb (Nat.ltb (length (pg_body pg)) floor) && pg_compress pg && page_ctype_ok pg.
+  Definition spec_verdict (pg : page) (ae : option bytes) : verdict :=
+    let values := header_values ae in
+    let refused := disable_identity values in
+    let algs := if may_compress pg then filter (fun a => contains values (alg_name a)) all_algs else [] in
+    mkVerdict (refused && match algs with [] => true | _ => false end) (negb refused) algs.
+  Definition alg_in (a : alg) (l : list alg) : bool := existsb (alg_eqb a) l.
+  Definition reply_allowed (v : verdict) (r : reply) : bool :=
+    match r with
+    | NotAcceptable => v_406 v
+    | Sent _ _ Identity => negb (v_406 v) && v_identity v
+    | Sent _ _ (Alg a) => negb (v_406 v) && alg_in a (v_algs v)
     end.
 End Negotiate.
 
-(** status seen by the client: the handler's 200 or the 406 of [handle_cache] *)
-Definition reply_status (r : reply) : N := match r with Sent _ _ _ => 200 | NotAcceptable => 406 end.
+(** status seen by the client: the handler's own or the 406 of [handle_cache] *)
+Definition reply_status (status : N) (r : reply) : N := match r with Sent _ _ _ => status | NotAcceptable => 406 end.
 
 (** decoding by label, with decoders [dec]; [None] = a label no decoder exists for *)
 Definition decode_label (dec : alg -> bytes -> bytes) (label : option bytes) (b : bytes) : option bytes :=
@@ -364,15 +448,17 @@ Definition decode_label (dec : alg -> bytes -> bytes) (label : option bytes) (b 
 (* ------------------------------------------------------------------------------------ *)
 (** * The memo cell under concurrency: n tasks inside the same [get_x]                    *)
 
-(** program counter of one task; one transition per access of the cell / per await *)
+(** [tokio::sync::OnceCell::get_or_init]: a task that finds the cell empty takes the cell's only permit,
+    compresses, stores its bytes and gives the permit up for good; a task that finds the permit taken waits
+    until the cell is filled.  Program counter of one task; one transition per access of the cell / per await *)
 Inductive pc :=
-| PStart                      (* before [if self.x().is_none()] *)
-| PComputing                  (* inside spawn_blocking(..).await *)
-| PComputed (buf : bytes)     (* before the second [is_none()] + [replace(buffer)] *)
-| PRet                        (* before [self.x().as_ref().unwrap()] *)
-| PDone (r : outcome bytes).  (* returned ([Panic] = unwrap on None) *)
+| PStart                      (* before the fast-path check / waiting for the permit *)
+| PComputing                  (* holds the permit, inside spawn_blocking(..).await *)
+| PComputed (buf : bytes)     (* holds the permit, before the value is stored *)
+| PRet                        (* before the reference into the cell is returned *)
+| PDone (r : outcome bytes).  (* returned ([Panic] = the cell was empty after all) *)
 
-Record mstate := mkM { m_cell : option bytes; m_pcs : list pc }.
+Record mstate := mkM { m_cell : option bytes; m_lock : bool; m_pcs : list pc }.
 
 Fixpoint set_nth {A} (i : nat) (v : A) (l : list A) : list A :=
   match l, i with
@@ -381,57 +467,146 @@ Fixpoint set_nth {A} (i : nat) (v : A) (l : list A) : list A :=
   | x :: r, S j => x :: set_nth j v r
   end.
 
-(** [vals]: what the encoder run of task i produces *)
+(** [vals]: what the encoder run of task i produces.  [None]: task i cannot move (it has returned, or it waits
+    for the permit) *)
 Definition mstep (vals : list bytes) (st : mstate) (i : nat) : option mstate :=
   match nth_error (m_pcs st) i with
   | Some PStart =>
-      Some (mkM (m_cell st) (set_nth i (match m_cell st with None => PComputing | Some _ => PRet end) (m_pcs st)))
+      match m_cell st with
+      | Some _ => Some (mkM (m_cell st) (m_lock st) (set_nth i PRet (m_pcs st)))
+      | None => if m_lock st then None
+                else Some (mkM (m_cell st) true (set_nth i PComputing (m_pcs st)))
+      end
   | Some PComputing =>
-      Some (mkM (m_cell st) (set_nth i (PComputed (nth i vals [])) (m_pcs st)))
+      Some (mkM (m_cell st) (m_lock st) (set_nth i (PComputed (nth i vals [])) (m_pcs st)))
   | Some (PComputed buf) =>
-      Some (mkM (match m_cell st with None => Some buf | Some b => Some b end) (set_nth i PRet (m_pcs st)))
+      Some (mkM (Some buf) false (set_nth i PRet (m_pcs st)))
   | Some PRet =>
-      Some (mkM (m_cell st)
+      Some (mkM (m_cell st) (m_lock st)
                 (set_nth i (PDone (match m_cell st with Some b => Ok b | None => Panic end)) (m_pcs st)))
   | Some (PDone _) => None
   | None => None
   end.
 
-(** a schedule is a list of task indices; a disabled step is skipped *)
+(** a schedule is a list of task indices; a step that cannot be taken is skipped *)
 Fixpoint mrun (vals : list bytes) (st : mstate) (sched : list nat) : mstate :=
   match sched with
   | [] => st
   | i :: r => mrun vals (match mstep vals st i with Some st' => st' | None => st end) r
   end.
-Definition minit (cell : option bytes) (n : nat) : mstate := mkM cell (repeat PStart n).
+Definition minit (cell : option bytes) (n : nat) : mstate := mkM cell false (repeat PStart n).
 Definition pc_done (p : pc) : bool := match p with PDone _ => true | _ => false end.
+(** steps a task still has to take *)
+Definition steps_left (p : pc) : nat :=
+  match p with PStart => 4 | PComputing => 3 | PComputed _ => 2 | PRet => 1 | PDone _ => 0 end.
+Definition total_left (st : mstate) : nat := fold_right (fun p acc => (steps_left p + acc)%nat) O (m_pcs st).
+
+(** ** kvarn 0.6.3: [UnsafeCell<Option<Bytes>>], "check; compress; check; write; read" with nothing that makes
+    the second check and the write one step.  On one thread no other task runs between them; on the worker
+    threads of a multi-thread runtime another task does.  Kept for [memo_double_write_v0_refuted] only. *)
+Inductive pc0 :=
+| P0Start | P0Computing | P0Computed (buf : bytes)
+| P0Writing (buf : bytes)     (* the second check saw an empty cell *)
+| P0Ret | P0Done (r : outcome bytes).
+Record mstate0 := mkM0 { m0_cell : option bytes; m0_pcs : list pc0 }.
+Definition mstep0 (vals : list bytes) (st : mstate0) (i : nat) : option mstate0 :=
+  match nth_error (m0_pcs st) i with
+  | Some P0Start =>
+      Some (mkM0 (m0_cell st) (set_nth i (match m0_cell st with None => P0Computing | Some _ => P0Ret end) (m0_pcs st)))
+  | Some P0Computing => Some (mkM0 (m0_cell st) (set_nth i (P0Computed (nth i vals [])) (m0_pcs st)))
+  | Some (P0Computed buf) =>
+      Some (mkM0 (m0_cell st) (set_nth i (match m0_cell st with None => P0Writing buf | Some _ => P0Ret end) (m0_pcs st)))
+  | Some (P0Writing buf) => Some (mkM0 (Some buf) (set_nth i P0Ret (m0_pcs st)))       (* Option::replace *)
+  | Some P0Ret =>
+      Some (mkM0 (m0_cell st) (set_nth i (P0Done (match m0_cell st with Some b => Ok b | None => Panic end)) (m0_pcs st)))
+  | Some (P0Done _) => None
+  | None => None
+  end.
+Fixpoint mrun0 (vals : list bytes) (st : mstate0) (sched : list nat) : mstate0 :=
+  match sched with
+  | [] => st
+  | i :: r => mrun0 vals (match mstep0 vals st i with Some st' => st' | None => st end) r
+  end.
+Definition minit0 (n : nat) : mstate0 := mkM0 None (repeat P0Start n).
 
 (* ------------------------------------------------------------------------------------ *)
 (** * Executable instances for the correspondence run                                     *)
 
-(** Stand-in for [f32::from_str] on plain decimals: digits with at most one '.', at least
-    one digit ([5], [5.], [.5], [0.000]).  The value m / 10^k is compared exactly with the
-    binary32 rounding thresholds: it parses to 0.0 iff m/10^k <= 2^-150 (half the smallest
-    subnormal, tie to even) and to 1.0 iff 1 - 2^-25 <= m/10^k <= 1 + 2^-24 (ties to even).
-    Everything else is "does not parse" here; signs, exponents, inf and nan are outside the
-    domain of the stand-in and are not generated as in-domain cases. *)
-Fixpoint dec_scan (s : bytes) (seen_dot : bool) (m : N) (k : N) (digits : bool) : option (N * N) :=
+(** Stand-in for [f32::from_str] (core::num::dec2flt) followed by the tests [== 0.0] / [== 1.0]:
+      [+-]? ( "inf" | "infinity" | "nan"            (any case)
+            | (digits [ "." digits* ] | "." digits) [ (e|E) [+-]? digits ] )
+    with at least one digit in the mantissa and in an exponent.  The decimal value m * 10^(e-k) is
+    compared exactly with the binary32 rounding thresholds (the parse is correctly rounded): it is
+    0.0 iff |v| <= 2^-150 (half the smallest subnormal; the tie goes to even), 1.0 iff
+    1 - 2^-25 <= v <= 1 + 2^-24 (ties to even).  -0.0 == 0.0; inf, nan and negative values are
+    neither.  Exponents are compared before anything is raised to them (huge exponents cost nothing). *)
+Fixpoint dec_scan (s : bytes) (seen_dot : bool) (m : N) (k : N) (nd : N) (digits : bool)
+  : option (N * N * N * bytes) :=                      (* mantissa, digits after '.', significant digits, rest *)
   match s with
-  | [] => if digits then Some (m, k) else None
+  | [] => if digits then Some (m, k, nd, []) else None
   | c :: r =>
-      if is_digit c then dec_scan r seen_dot (m * 10 + (c - 48)) (if seen_dot then k + 1 else k) true
-      else if (c =? c_dot) && negb seen_dot then dec_scan r true m k digits
+      if is_digit c then
+        dec_scan r seen_dot (m * 10 + (c - 48)) (if seen_dot then k + 1 else k)
+                 (if (nd =? 0) && (c =? 48) then 0 else nd + 1) true
+      else if (c =? c_dot) && negb seen_dot then dec_scan r true m k nd digits
+      else if digits then Some (m, k, nd, s) else None
+  end.
+Fixpoint all_digits (s : bytes) (acc : N) : option N :=
+  match s with
+  | [] => Some acc
+  | c :: r => if is_digit c then all_digits r (acc * 10 + (c - 48)) else None
+  end.
+Definition strip_sign (s : bytes) : bool * bytes :=
+  match s with
+  | 43 :: r => (false, r)
+  | 45 :: r => (true, r)
+  | _ => (false, s)
+  end.
+(** the exponent part: [None] = malformed, [Some (negative, value)] *)
+Definition exp_scan (s : bytes) : option (bool * N) :=
+  match s with
+  | [] => Some (false, 0)
+  | c :: r =>
+      if (c =? 101) || (c =? 69) then
+        let '(neg, d) := strip_sign r in
+        match d with
+        | [] => None
+        | _ => match all_digits d 0 with Some e => Some (neg, e) | None => None end
+        end
       else None
   end.
-Definition parse_q_dec (s : bytes) : option qclass :=
-  match dec_scan s false 0 0 false with
+(** class of the non-negative decimal m * 10^e / 10^k, m with nd significant digits *)
+Definition classify_dec (m k nd : N) (eneg : bool) (e : N) : qclass :=
+  if m =? 0 then QZero else
+  let up := (if eneg then 0 else e) in                  (* value = m * 10^up / 10^down *)
+  let down := k + (if eneg then e else 0) in
+  (* 10^(nd-1+up-down) <= value < 10^(nd+up-down) *)
+  if down + 2 <? nd + up then QOther                    (* >= 100 (or overflows to inf) *)
+  else if nd + up + 50 <? down then QZero               (* < 10^-50 < 2^-150 *)
+  else
+    let num := if down <=? up then m * 10 ^ (up - down) else m in
+    let den := if down <=? up then 1 else 10 ^ (down - up) in
+    if num * 2 ^ 150 <=? den then QZero
+    else if ((2 ^ 25 - 1) * den <=? num * 2 ^ 25) && (num * 2 ^ 24 <=? (2 ^ 24 + 1) * den) then QOne
+    else QOther.
+Definition parse_q_full (s : bytes) : option qclass :=
+  let '(neg, t) := strip_sign s in
+  let lt := lower t in
+  if beq lt (B "inf") || beq lt (B "infinity") || beq lt (B "nan") then Some QOther else
+  match dec_scan t false 0 0 0 false with
   | None => None
-  | Some (m, k) =>
-      let p := 10 ^ k in
-      if m * 2 ^ 150 <=? p then Some QZero
-      else if ((2 ^ 25 - 1) * p <=? m * 2 ^ 25) && (m * 2 ^ 24 <=? (2 ^ 24 + 1) * p) then Some QOne
-      else Some QOther
+  | Some (m, k, nd, rest) =>
+      match exp_scan rest with
+      | None => None
+      | Some (eneg, e) =>
+          let c := classify_dec m k nd eneg e in
+          Some (if neg then match c with QZero => QZero | _ => QOther end else c)
+      end
   end.
+(** the guard is redundant (every accepted text consists of number characters); it makes the
+    side condition of [list_header_wf] evident *)
+Definition parse_q_dec (s : bytes) : option qclass :=
+  if forallb numberish s then parse_q_full s else None.
 
 (** Stand-in for [Mime::from_str] (mime 0.3.17 parse.rs) on
     [type "/" subtype] optionally followed by [; charset=utf-8] / [;charset=utf-8]:
@@ -503,15 +678,25 @@ Definition run_mime (x : xval) : xval :=
   end.
 
 (** body descriptions: (L (N 0) (B bytes)) literal | (L (N 1) (N byte) (N len)) repeated byte
-    | (L (N 2) (N seed) (N len)) bytes of the LCG x' = (1103515245 x + 12345) mod 2^31, byte = x' / 2^16 mod 256 *)
+    | (L (N 2) (N seed) (N len)) bytes of the LCG x' = (1103515245 x + 12345) mod 2^31, byte = x' / 2^16 mod 256
+    | (L (N 3) (N seed) (N len) (N d)) that block doubled d <= 8 times, see [xor_double] *)
 Definition lcg_next (x : N) : N := (1103515245 * x + 12345) mod 2147483648.
 Definition lcg_bytes (seed len : N) : bytes :=
   rev_append (snd (N.iter len (fun st => let x := lcg_next (fst st) in (x, ((x / 65536) mod 256) :: snd st)) (seed, []))) [].
+(** big incompressible bodies without per-byte arithmetic: a pseudo-random block, doubled d times, the copy
+    xor-ed with 2^i in round i (the 2^d segments are the block under 2^d different masks: no repeated text
+    for an LZ matcher, a flat histogram for an entropy coder) *)
+Fixpoint xor_double (i : nat) (d : nat) (b : bytes) : bytes :=
+  match d with
+  | O => b
+  | S d' => xor_double (S i) d' (b ++ map (N.lxor (2 ^ N.of_nat i)) b)
+  end.
 Definition d_body (x : xval) : option bytes :=
   match x with
   | XL [XN 0; XB b] => Some b
   | XL [XN 1; XN c; XN len] => Some (N.iter len (cons c) [])
   | XL [XN 2; XN seed; XN len] => Some (lcg_bytes seed len)
+  | XL [XN 3; XN seed; XN len; XN d] => if d <=? 8 then Some (xor_double 0 (N.to_nat d) (lcg_bytes seed len)) else None
   | _ => None
   end.
 Definition d_pref (x : xval) : option pref :=
@@ -519,64 +704,108 @@ Definition d_pref (x : xval) : option pref :=
   | XN 0 => Some PNone | XN 1 => Some PGzip | XN 2 => Some PBr | XN 3 => Some PZstd | _ => None
   end.
 
-(** request: (L (N 0) (L [accept-encoding])) one request | (L (N 1) (L [accept-encoding]) (N n)) n concurrent
-    requests with the same header (by [memo_invariant] every interleaving gives what n sequential ones give) *)
-Definition d_req (x : xval) : option (list (option bytes)) :=
+Definition d_meth (x : xval) : option meth :=
+  match x with XN 0 => Some MGet | XN 1 => Some MHead | XN 2 => Some MOther | _ => None end.
+(** request group: (L (N kind) (L [accept-encoding]) (N method) (N n) (L more ...)): n requests with this method and header
+    ("more": further Accept-Encoding field lines after the first; [headers().get] reads the first one only);
+    kind 0: one after the other, 1: concurrently, futures joined on one thread, 2: concurrently, tasks spawned
+    on a multi-thread runtime (the model does not distinguish 1 and 2) *)
+Definition d_req (x : xval) : option (list (meth * option bytes * nat)) :=
   match x with
-  | XL [XN 0; ae] => option_map (fun a => [a]) (d_option d_B ae)
-  | XL [XN 1; ae; XN n] => option_map (fun a => repeat a (N.to_nat n)) (d_option d_B ae)
+  | XL [XN k; ae; xm; XN n; XL _] =>
+      match d_option d_B ae, d_meth xm with
+      | Some a, Some m =>
+          if k =? 0 then Some (repeat (m, a, 1%nat) (N.to_nat n))
+          else if (k =? 1) || (k =? 2) then Some [(m, a, N.to_nat n)]
+          else None
+      | _, _ => None
+      end
   | _ => None
   end.
 
 (** observation of one reply: status, content-encoding, the body decodes with the decoder of the
-    label, the decoded body is the identity body, its length, the bytes sent are the identity bytes,
-    the bytes sent are those of the first reply that carried this label *)
-Fixpoint assoc_b (k : bytes) (l : list (bytes * bytes)) : option bytes :=
-  match l with
-  | [] => None
-  | (k', v) :: r => if beq k k' then Some v else assoc_b k r
-  end.
-Definition x_reply (identity : bytes) (seen : list (bytes * bytes)) (r : reply) : xval * list (bytes * bytes) :=
-  match r with
-  | NotAcceptable => (XL [XN 406], seen)
+    label (an empty body: nothing to decode), the decoded body is the identity body, its length, the
+    bytes sent are the identity bytes, the buffer sent is one an earlier reply already carried (the
+    memoised one) *)
+Definition x_reply (status : N) (identity : bytes) (rm : reply * bool) : xval :=
+  match fst rm with
+  | NotAcceptable => XL [XN 406]
   | Sent label b _ =>
-      let d := decode_label dec_tag label b in
-      let key := match label with Some l => l | None => [] end in
-      let '(same, seen') := match assoc_b key seen with
-                            | Some b0 => (beq b b0, seen)
-                            | None => (true, seen ++ [(key, b)])
-                            end in
-      (XL [XN 200; x_option XB label;
-           x_bool (match d with Some _ => true | None => false end);
-           x_bool (match d with Some v => beq v identity | None => false end);
-           x_nat (match d with Some v => length v | None => O end);
-           x_bool (beq b identity);
-           x_bool same], seen')
+      let d := match b with [] => Some [] | _ => decode_label dec_tag label b end in
+      XL [XN status; x_option XB label;
+          x_bool (match d with Some _ => true | None => false end);
+          x_bool (match d with Some v => beq v identity | None => false end);
+          x_nat (match d with Some v => length v | None => O end);
+          x_bool (beq b identity);
+          x_bool (snd rm)]
   end.
-Fixpoint x_replies (identity : bytes) (seen : list (bytes * bytes)) (rs : list reply) : list xval * list (bytes * bytes) :=
-  match rs with
-  | [] => ([], seen)
-  | r :: rest =>
-      let '(x, seen1) := x_reply identity seen r in
-      let '(xs, seen2) := x_replies identity seen1 rest in
-      (x :: xs, seen2)
-  end.
-Fixpoint x_groups (identity : bytes) (seen : list (bytes * bytes)) (gs : list (list reply)) : list xval :=
-  match gs with
-  | [] => []
-  | g :: rest => let '(xs, seen1) := x_replies identity seen g in XL xs :: x_groups identity seen1 rest
+Definition x_groups (status : N) (identity : bytes) (gs : list (list (reply * bool))) : list xval :=
+  map (fun g => XL (map (x_reply status identity) g)) gs.
+
+(** page: (L body (L [content-type]) compress cache pref_oneshot pref_cached (L [content-encoding of the handler])
+    (N status) levels); levels = the six compression levels, which only the real encoders look at *)
+Definition d_page (x : xval) : option (page * list xval) :=
+  match x with
+  | XL [xbody; xct; xcompress; xcache; xp1; xp2; xhce; XN status; XL levels] =>
+      match d_body xbody, d_option d_B xct, d_bool xcompress, d_bool xcache, d_pref xp1, d_pref xp2, d_option d_B xhce with
+      | Some body, Some ct, Some compress, Some cache, Some p1, Some p2, Some hce =>
+          Some (mkPage body ct hce status compress cache (mkOptions p1 1 3 1) (mkOptions p2 4 4 2), levels)
+      | _, _, _, _, _, _, _ => None
+      end
+  | _ => None
   end.
 
-(** "neg.pipe": (L (L body (L [content-type]) compress cache pref_oneshot pref_cached) (L req ...)) *)
+(** "neg.pipe": (L page (L req ...)) -> (L (L reply ...) ...) one list per request group *)
 Definition run_pipe_neg (x : xval) : xval :=
   match x with
-  | XL [XL [xbody; xct; xcompress; xcache; xp1; xp2]; XL xreqs] =>
-      match d_body xbody, d_option d_B xct, d_bool xcompress, d_bool xcache, d_pref xp1, d_pref xp2,
-            d_all d_req xreqs with
-      | Some body, Some ct, Some compress, Some cache, Some p1, Some p2, Some reqs =>
-          let pg := mkPage body ct compress cache (mkOptions p1 1 3 1) (mkOptions p2 4 4 2) in
-          XL (x_groups body [] (serve_groups parse_q_dec parse_mime_std enc_tag pg None reqs))
-      | _, _, _, _, _, _, _ => bad_input
+  | XL [xpage; XL xreqs] =>
+      match d_page xpage, d_all d_req xreqs with
+      | Some (pg, _), Some reqs =>
+          XL (x_groups (pg_status pg) (pg_body pg)
+                (serve_groups parse_q_dec parse_mime_std enc_tag pg None (concat reqs)))
+      | _, _ => bad_input
+      end
+  | _ => bad_input
+  end.
+
+(** "neg.spec": same input -> per request group the verdict of the specification:
+    (L (N must-be-406) (N identity-allowed) (L allowed coding names)) *)
+Definition x_verdict (v : verdict) : xval :=
+  XL [x_bool (v_406 v); x_bool (v_identity v); x_list (fun a => XB (alg_name a)) (v_algs v)].
+Definition run_spec_neg (x : xval) : xval :=
+  match x with
+  | XL [xpage; XL xreqs] =>
+      match d_page xpage, d_all d_req xreqs with
+      | Some (pg, _), Some reqs =>
+          XL (map (fun g => x_verdict (spec_verdict parse_q_dec parse_mime_std pg (snd (fst g)))) (concat reqs))
+      | _, _ => bad_input
+      end
+  | _ => bad_input
+  end.
+
+(** "neg.stress": (L (N rounds) (N n) (N body length) (N coding)): rounds times, n tasks on the worker threads of a
+    multi-thread runtime ask a cached page with cold memo cells for the same coding -> (L (N anomalies) (N replies)
+    (N wrong replies)).  By [memo_invariant] and [memo_write_once] every reply carries the one buffer the cell
+    holds: no anomaly, whatever the interleaving. *)
+Definition run_stress (x : xval) : xval :=
+  match x with
+  | XL [XN rounds; XN n; XN _; XN c] => if c <? 3 then XL [XN 0; XN (rounds * n); XN 0] else bad_input
+  | _ => bad_input
+  end.
+
+(** "neg.stream": (L (L [accept-encoding]) (N announced-length?)) -> (L (N status) (N future kept) (L [content-encoding]) (N body length))
+    a response that carries a future (a streaming response: compression is forced off for it) with 18 bytes of body:
+    [handle_cache] never exchanges it for a 406 — its future writes the rest of the body.  With an announced length
+    [clone_preferred] is not consulted at all; without, a forbidden identity falls back to the identity response as
+    the handler made it. *)
+Definition run_stream (x : xval) : xval :=
+  match x with
+  | XL [xae; xw] =>
+      match d_option d_B xae, d_bool xw with
+      | Some ae, Some w =>
+          let refused := disable_identity (header_values parse_q_dec ae) in
+          XL [XN 200; XN 1; x_option XB (if w || refused then None else Some s_identity); XN 18]
+      | _, _ => bad_input
       end
   | _ => bad_input
   end.
@@ -584,4 +813,7 @@ Definition run_pipe_neg (x : xval) : xval :=
 Definition negotiate_table : list (bytes * (xval -> xval)) :=
   [ (B "neg.list_header", run_list_header);
     (B "neg.mime", run_mime);
-    (B "neg.pipe", run_pipe_neg) ].
+    (B "neg.pipe", run_pipe_neg);
+    (B "neg.spec", run_spec_neg);
+    (B "neg.stress", run_stress);
+    (B "neg.stream", run_stream) ].
